@@ -54,7 +54,7 @@ def run(ctx):
         plans = [("a", 3, 6, 3, False), ("b", 2, 12, 0, False)]
         rec = (30, 400, 40)
     else:
-        plans = [("a", 3, 12, 4, False), ("b", 4, 5, 0, False)]
+        plans = [("a", 3, 12, 4, False), ("b", 4, 7, 0, False)]
         rec = (150, 1000, 60)
     cands = []
     nl = nm = nontriv = 0
